@@ -14,11 +14,12 @@ SPEC = {
     "lean_dirs": ["SemaModel/C12"],
     "harness": "c12",
     "level": "proof",
-    "tie": "T2: tools/facts_c12 regenerates the lock skeletons (lock/unlock/defer/map/channel/fs operations and yield points in source order) of loadShard, cleanupRoutine, DoWithShard, DeleteCollectionShards into Generated/FactsC12.lean, pinned by `decide` in Props.lean against the skeletons the model was written from; T3: model-generated schedules (quick: seeded random walks; thorough: a transition cover of the state graphs of 4 small configurations) are forced on the real ShardManager via verifYield hooks, traces compared per step, property oracle evaluated on the real traces, plus unforced stress with a watchdog",
+    "tie": "T2: tools/facts_c12 regenerates the lock skeletons (lock/unlock/defer/map/channel/fs operations and yield points in source order) of loadShard, cleanupRoutine, DoWithShard, DeleteCollectionShards into Generated/FactsC12.lean, pinned by `decide` in Props.lean against the skeletons the model was written from; T3: model-generated schedules (quick: seeded random walks; thorough: a transition cover of the state graphs of 4 small configurations) are forced on the real ShardManager via verifYield hooks, traces compared per step, property oracle evaluated on the real traces, plus unforced stress with a watchdog; loads that fail are part of both: the model's environment acts xB (database file becomes garbage) / xF (a non-directory at the shard path) are executed by the harness on the file system before / between the calls, the request must return the clean error and every later call must make progress (forced schedules: 3 fixed + 3 of the 7 configurations; stress: a never-deleted collection with one garbage and one blocked shard receives 1/8 of the requests)",
     "required_theorems": [
         "Sema.C12.C12_no_use_after_close", "Sema.C12.C12_single_open", "Sema.C12.C12_no_remove_in_use",
         "Sema.C12.C12_clean_error", "Sema.C12.C12_deadlock_free", "Sema.C12.C12_reload",
         "Sema.C12.C12_deadlock_witness_pinned", "Sema.C12.C12_skeleton_pinned",
+        "Sema.C12.C12_failed_load_clean", "Sema.C12.C12_load_error_releases", "Sema.C12.C12_returned_holds_nothing",
     ],
     "trusted_base": [
         "the meaning given to Go's sync.Mutex, sync.RWMutex (writer preference: a pending Lock blocks new RLocks; Unlock admits all queued readers), unbuffered channels with non-blocking sends, select, and time.Timer in SemaModel/C12/Model.lean",
@@ -29,7 +30,7 @@ SPEC = {
     ],
     "assumptions": [
         "callbacks passed to DoWithShard terminate and do not call the shard manager",
-        "file system operations (MkdirAll, RemoveAll, bbolt Open/Close) terminate and do not fail for other reasons than the file lock",
+        "file system operations (MkdirAll, RemoveAll, bbolt Open/Close) terminate; MkdirAll fails exactly when a non-directory sits at the shard path and NewShard fails exactly when the database file is not a bbolt file (both are events of the model and of the harness: Act.block / Act.corrupt, a 64 KiB garbage sharddb.bbolt, a regular file at the directory path); other OS failures (RemoveAll, Close, ReadDir) are not modelled",
     ],
 }
 
